@@ -7,7 +7,7 @@ from ..buscheck import fld, hexname, Tracker
 MODULE = "Dbus.Props.C05"
 THEOREMS = ["unicast_reaches_owner_once", "recipient_of_unicast_eavesdrops", "addressed_not_recipient", "no_owner_no_delivery",
             "refused_no_delivery", "undeliverable_one_error", "forwarded_fields_intact", "forwarded_rest_intact",
-            "outputs_in_processing_order", "stalled_owner_gets_nothing"]
+            "outputs_in_processing_order", "stalled_owner_gets_nothing", "primary_owner_is_connected"]
 BUS = "org.freedesktop.DBus"
 WEIGHTS = {"call": 30, "signal": 14, "reply": 12, "request": 14, "release": 5, "close": 5, "connect": 5, "hello": 4, "addmatch": 6,
            "forged": 3, "query": 2, "driver_edge": 1, "badtype": 2, "nodest": 1, "garbage": 1, "removematch": 1}
